@@ -201,6 +201,67 @@ def lockfree_memo(rep):
                             where=f'{rel}:{n.lineno} lazily memoised {k[0]}.{k[1]} filled outside any lock in {fn.name}(): {why}')
     if n_sites == 0: rep.error('C15: no lock-free lazily memoised slot found (extraction key no longer resolves)')
 
+def no_yield_under_lock(rep):
+    """a lock taken inside beartype is released before control returns to code beartype does not own: no `yield` (generator / context-manager
+    body handing control to the caller) lexically inside `with <lock>` - otherwise arbitrary user code runs holding a global lock, and any other
+    thread that registers a hook or imports a hooked module while that code waits for it deadlocks"""
+    LOCKS = {'claw_lock', '_beartype_conf_lock', 'object_attr_cache_lock', '_thread_lock', '_lock'}
+    n_with = 0
+    for root, ds, fs in os.walk(os.path.join(REPO, 'beartype')):
+        for f in sorted(fs):
+            if not f.endswith('.py'): continue
+            p = os.path.join(root, f); rel = os.path.relpath(p, REPO)
+            try: tree = ast.parse(open(p).read())
+            except Exception: continue
+            for w in ast.walk(tree):
+                if not isinstance(w, (ast.With, ast.AsyncWith)): continue
+                names = [(i.context_expr.id if isinstance(i.context_expr, ast.Name) else i.context_expr.attr if isinstance(i.context_expr, ast.Attribute) else None) for i in w.items]
+                locks = [x for x in names if x in LOCKS or (x or '').endswith('_lock')]
+                if not locks: continue
+                n_with += 1
+                # yields in nested function definitions belong to those functions, not to this region
+                ys = []
+                def visit(node):
+                    for c in ast.iter_child_nodes(node):
+                        if isinstance(c, (ast.FunctionDef, ast.AsyncFunctionDef, ast.Lambda, ast.ClassDef)): continue
+                        if isinstance(c, (ast.Yield, ast.YieldFrom, ast.Await)): ys.append(c)
+                        visit(c)
+                for b in w.body: visit(b) if not isinstance(b, (ast.FunctionDef, ast.AsyncFunctionDef, ast.ClassDef)) else None
+                for b in w.body:
+                    if isinstance(b, ast.Expr) and isinstance(b.value, (ast.Yield, ast.YieldFrom, ast.Await)): ys.append(b.value)
+                ok = not ys
+                rep.add(f'C15.lock_scope.no_yield_under_lock.{locks[0]}@{rel.split("/")[-1]}:{w.lineno}', 'proved' if ok else 'refuted', backend='structural',
+                        where=f'{rel}:{w.lineno} `with {locks[0]}` ' + ('releases the lock before control leaves beartype' if ok else f'contains a yield/await at line(s) {sorted({y.lineno for y in ys})}: the caller\'s code runs while the lock is held'))
+    if not n_with: rep.error('C15: no `with <lock>` region found')
+
+BODY_SRC = """
+import sys, threading, os, tempfile
+td = tempfile.mkdtemp(prefix='c15body_'); sys.path.insert(0, td)
+for name in ('c15_body_pkg_a', 'c15_body_pkg_b'):
+    os.makedirs(os.path.join(td, name)); open(os.path.join(td, name, '__init__.py'), 'w').write('def f(x: int) -> int:\\n    return x\\n')
+from beartype.claw import beartyping, beartype_package
+from beartype import BeartypeConf
+bad = []
+def helper_register(): beartype_package('c15_body_pkg_a', conf=BeartypeConf(is_debug=False))
+def helper_import(): __import__('c15_body_pkg_b')
+with beartyping():
+    # code the CALLER owns: other threads must be able to use the hook API / import hooked modules while it runs (and it may wait for them)
+    for label, fn in (('beartype_package() in another thread', helper_register), ('an import in another thread', helper_import)):
+        t = threading.Thread(target=fn, daemon=True); t.start(); t.join(8)
+        if t.is_alive(): bad.append(f'{label} is still blocked after 8 s while the main thread is inside a `with beartyping():` body')
+print(bad); sys.exit(1 if bad else 0)
+"""
+def body_not_under_lock(rep):
+    """bounded (NOT counted as proved): inside a `with beartyping():` body other threads can register hooks and import modules"""
+    import subprocess
+    env = dict(os.environ); env['PYTHONPATH'] = REPO
+    p = subprocess.run([sys.executable, '-c', BODY_SRC], capture_output=True, text=True, timeout=120, env=env, cwd='/')
+    if p.returncode not in (0, 1) or (p.returncode == 1 and not p.stdout.strip().startswith('[')): rep.error('C15 body_not_under_lock harness: ' + (p.stdout + p.stderr)[-600:]); return
+    if p.returncode == 1:
+        rep.add('C15.history.beartyping_body_blocks_other_threads', 'refuted', backend='runtime-contract', bounded=True, where=p.stdout.strip()[-400:], solver_output='bounded run-time contract in a fresh interpreter (not a proof)',
+                replay=dict(reproduced=True, detail=p.stdout.strip()[-300:]), replay_script=f"import subprocess\nenv = dict(os.environ); env['PYTHONPATH'] = os.environ.get('VERIF_REPO', {REPO!r})\np = subprocess.run([sys.executable, '-c', {BODY_SRC!r}], env=env, cwd='/')\nsys.exit(p.returncode)\n")
+    rep.bounded.append(dict(kind='other threads register / import while the main thread is inside a beartyping() body (bounded stand-in, NOT counted as proved)', scenarios=2, failing=int(p.returncode == 1)))
+
 def main(tier, seed):
     rep = report.Report('C15', tier, seed, 'other', f'./check C15 --tier {tier}')
     ws = []
@@ -213,6 +274,8 @@ def main(tier, seed):
         lock_order(rep, ws)
         pool_discipline(rep)
         lockfree_memo(rep)
+        no_yield_under_lock(rep)
+        body_not_under_lock(rep)
     except Exception: rep.error('C15: ' + traceback.format_exc()[-2500:])
     try:
         from props import c15_sched
